@@ -30,8 +30,10 @@ CLAIMED = {
             "(the action and router choke points); every action type whose methods reach a save implements ResultContainer, "
             "declares the same name field and every constant category that can reach the save (through forwarding wrappers "
             "and constant maps); routers declare resultName with all category names; every asset-reference field of an action "
-            "struct is visible to the reflection walker; waiting exits and node enumerators are unfiltered; every action field "
-            "that reaches Run.EvaluateTemplate* is tagged engine:evaluated. Does not relate inspection to actual executions.",
+            "struct is visible to the reflection walker; waiting exits are collected in a real loop over every exit of every waiting "
+            "node without filter or early exit; node enumerators are unfiltered; every action field that reaches "
+            "Run.EvaluateTemplate* is tagged engine:evaluated; NewResultSpecs merges every category; every router field that is "
+            "evaluated or can hold dependencies is passed on by its enumerators. Does not relate inspection to actual executions.",
             "table agreement between sibling implementations (saves vs declares) via SSA provenance, struct-tag audit, control-dependence check",
             "DESIGN.md §4 C20"),
     "C04": ("Structural necessary conditions of totality of expression evaluation, decided over the SSA form of the six evaluation "
@@ -40,8 +42,12 @@ CLAIMED = {
             "strings.Repeat) has a constant-derived or guarded operand; the arity wrappers enforce len(args) >= min on every "
             "path before calling the wrapped function and every constant index/slice of args in the 120 registered functions "
             "and tests is below the registered minimum or guarded; unchecked type assertions are guarded by a type test, IsXError, "
-            "or same-type call sites; constant-offset string slicing is guarded. Does not decide termination inside libraries "
-            "for guarded operands, numeric results, or computed (non-constant) index expressions.",
+            "or same-type call sites; constant-offset string slicing and constant slice indexes are within a length established on "
+            "every path; each of the 111 computed indexes and slice bounds is shown non-negative and within the length of the value "
+            "it indexes on every path (comparison with len of the same or a provably as-long value, range index, length getters, "
+            "len-k, min, negative-index normalisation, sort's contract, index parameters forwarded to their call sites) or is one of "
+            "16 listed sites with its reason. Does not decide termination inside libraries for guarded operands, numeric results, "
+            "or the listed sites beyond the stated argument.",
             "guard-dominance (control-dependence) check on partial-call operands, arity-table vs index agreement, path typestate on the arity wrapper",
             "DESIGN.md §4 C04"),
     "C16": ("Structural necessary conditions of safe, stable definition migration: the version registry (distinct versions, "
@@ -49,8 +55,11 @@ CLAIMED = {
             "ascending, the function registered for the stamped version, stamps the applied version, returns its input untouched "
             "when nothing applies); hostile-JSON panic freedom clauses over migrations/legacy/definition/jsonpath: unchecked type "
             "assertions, dereferences of optional JSON pointers, constant-offset string slicing, writes into possibly-nil JSON maps, "
-            "explicit panics - each guarded on every path or listed with its reason. Does not decide that migrated definitions load, "
-            "graph preservation, idempotence as a value-level fact, or equivalence of rewritten templates.",
+            "explicit panics, constant and computed indexes (139 sites) - each guarded on every path or listed with its reason; the UUID "
+            "of every migrated legacy node and exit is a field of the legacy definition; every legacy action constructor writes a "
+            "registered action type, only keys that are json fields of that action's struct and every field it requires; template-path "
+            "wildcards agree between producer and consumer. Does not decide that migrated definitions load (in particular whether a "
+            "required text value can be empty), graph preservation, idempotence as a value-level fact, or equivalence of rewritten templates.",
             "registry/table agreement (AST constants), SSA shape check of migrate(), guard-dominance (control dependence) for nil/length/type tests, interprocedural nullable-map analysis",
             "DESIGN.md §4 C16"),
     "C01": ("Local steps of the session state-machine invariant, decided on the SSA/AST form of the engine: status alphabet and "
@@ -75,7 +84,8 @@ CLAIMED = {
             "(all enumerated) that ends in an engine-error rejection executes no instruction or callee that writes a persisted "
             "session/run/step/contact/sprint field through a non-fresh object (root-sensitive interprocedural write summaries; only "
             "the transient session.parentRun is allowed); Accepts(resume) dominates every state change; every other exit of "
-            "tryToResume fails the session with a nil Go error; Router()/Wait() receivers are nil-tested; the Accepts decision "
+            "tryToResume fails the session with a nil Go error, and its only rejection sits on the Accepts-false edge; Router()/Wait() "
+            "receivers are nil-tested; the Accepts decision "
             "table is evaluated exhaustively over resume type x timeout (total, every type accepted somewhere, no timeout resume "
             "without a timeout). Does not compare session JSON before/after as an observed fact nor cover faults inside ReadSession.",
             "path enumeration with interprocedural root-sensitive write-effect summaries (go/ssa + CHA), guard dominance, finite-domain abstract interpretation of Accepts",
@@ -83,9 +93,12 @@ CLAIMED = {
     "C06": ("Structural necessary conditions of 'query-based group membership matches the contact': an interprocedural, "
             "root-sensitive dirty/clean may-dataflow over ~4600 function summaries proving that session start, resume and "
             "modifiers.Apply never return successfully with a queryable contact property changed after the last "
-            "Contact.ReevaluateQueryBasedGroups (Modifier.Apply is dirty exactly when it returns true; nil-ness of the trigger "
-            "parameter is propagated; writes to freshly read contacts are ignored); the non-active-contact clauses of "
-            "ReevaluateGroups/CheckQueryBasedMembership; every query group is re-checked; both call sites report changes. Does "
+            "Contact.ReevaluateQueryBasedGroups (the starting contact's stored membership is not trusted, so a new session must "
+            "re-evaluate on every path; Modifier.Apply is dirty exactly when it returns true, which is itself an obligation per "
+            "implementation; nil-ness of the trigger parameter is propagated; writes to freshly read contacts are ignored); the "
+            "non-active-contact clauses of ReevaluateGroups/CheckQueryBasedMembership; every query group is re-checked, a matching "
+            "group is added and a non-matching one removed; both call sites report changes and skip the event only when both lists "
+            "are empty. Does "
             "not decide that the evaluator's answer is right (C15) nor asset loading.",
             "interprocedural dirty/clean dataflow over go/ssa with CHA dispatch and object-root sensitivity, guard dominance",
             "DESIGN.md §4 C06"),
@@ -113,7 +126,9 @@ CLAIMED = {
             "step, contact, ticket, call, triggers, inputs, run summary) every field is written by the marshal side and restored "
             "by the read side (through helpers), re-derived on read, or listed transient with its reason; every member of the 77 "
             "envelope fields is both written and read; the transient parent run is re-derived (prepareForSprint dominates the flow "
-            "call in start and Resume, and parentRun has no other accessor). Does not decide that a restored session behaves "
+            "call in start and Resume, and parentRun has no other accessor); in the 7 type registries (triggers, resumes, inputs, "
+            "events, modifiers, waits, hints; 69 struct types) the name a struct is registered under for reading is the type-name "
+            "constant its constructors write. Does not decide that a restored session behaves "
             "identically (value-level), nor that re-derived values equal the live ones.",
             "marshal/read field-coverage and envelope symmetry (sibling-table agreement over go/ssa field accesses), dominance",
             "DESIGN.md §4 C02"),
@@ -130,6 +145,7 @@ CLAIMED = {
             "environment default (set and different) and flow language in that order with the right guards; "
             "sessionEnvironment.DefaultLanguage honours contact presence, language set and allowed list; getText walks forward, stops "
             "at the flow language, returns only non-empty translations with their own language, item and key, falls back to native; "
+            "the lookup treats a translation consisting of one empty string as missing; "
             "localization keys agree both ways between engine:localized tags (16 fields) and the 12 runtime lookups; evaluateMessage "
             "uses three independent lookups and the text -> attachments -> quick replies language choice; send_msg locales derive "
             "from the language actually used. Does not enumerate the outcomes of all configurations.",
@@ -152,7 +168,8 @@ CLAIMED = {
             "only characters of the TEXT token (regexp/syntax walk of the constant pattern); the STRING lexer rule, read from the "
             "grammar and determinised over {quote, backslash, other}, is checked for termination ambiguity and for accepting every "
             "strconv.Quote image; operator constants are COMPARATOR literals; the printer uses the node's own operator, always "
-            "parenthesises combinations; writer prefixes pair with reader arms. Does not decide structural identity of re-parsed "
+            "parenthesises combinations; writer prefixes pair with reader arms; every type switch over QueryNode covers both node "
+            "types and Simplify keeps every child, flattening only same-operator children. Does not decide structural identity of re-parsed "
             "queries for all inputs.",
             "value provenance over go/ssa, regular-language (NFA->DFA) reasoning on the grammar's lexer rule, constant-pattern analysis, table agreement",
             "DESIGN.md §4 C14"),
@@ -160,9 +177,11 @@ CLAIMED = {
             "abstractly (finite-domain interpretation of its SSA) on the strconv.Quote image of all 121 abstract strings over "
             "{quote, backslash, other} up to length 4 followed by more input and must stop exactly at the closing quote; the "
             "lexer's TEXT rule, read from the grammar and determinised over the same alphabet, is checked for termination "
-            "ambiguity and acceptance of every image; scanBody's reaction to '@' + {'(', '@', name, end, other} x unescape is "
+            "ambiguity and acceptance of every image; scanExpression, with its nested literal reader and its parenthesis counter "
+            "tracked along the path, is run on 389 abstract expression bodies over {quote, backslash, other, '(', ')'} and must end "
+            "where a reference reading of the grammar ends; scanBody's reaction to '@' + {'(', '@', name, end, other} x unescape is "
             "evaluated per case against the documented behaviour; scanIdentifier returns the scanned text unmodified and IDENTIFIER "
-            "only behind the lower-cased allowed-top-level test; TextLiteral.String is strconv.Quote of the full native value and "
+            "only behind the lower-cased allowed-top-level test, and gives a disallowed name back with its '@'; TextLiteral.String is strconv.Quote of the full native value and "
             "the reader strconv.Unquote. Does not decide the whole-string round trip for all UTF-8.",
             "finite-domain abstract interpretation of the scanner (path typestate engine over go/ssa), NFA->DFA reasoning on the grammar rule, provenance",
             "DESIGN.md §4 C12"),
